@@ -93,7 +93,7 @@ Definition panic_cover : list (string * string * string * N * reason * string) :
     ("paseto-v3/src/core/pie_wrap.rs", "wrap_keys", "index", 1%N, LibTotal, "HMAC accepts every key length; BLAKE2b keys of 32 bytes and outputs <= 64; HKDF output <= 255 * 48");
     ("paseto-v3/src/core/pke.rs", "seal_key", "unwrap", 1%N, LibTotal, "HMAC accepts every key length; the recipient key was validated at decode");
     ("paseto-v3/src/core/pke.rs", "unseal_key", "unwrap", 1%N, ByLemma, "after the length check / split: LocalProofs.lg_unseal_no_panic, PublicProofs.pg_unseal_no_panic, Paserk unseal models");
-    ("paseto-v3/src/core/public.rs", "decode", "index", 1%N, LibTotal, "DER encoding of a parsed RSA key; fixed-size conversions after the length check");
+    ("paseto-v3/src/core/public.rs", "decode", "index", 1%N, ByLemma, "bytes[0] behind the short-circuit of `len != 49 ||`: a live Panic branch of Keys.v3_decode_public, NoPanic.v3_decode_public_no_panic");
     ("paseto-v3/src/core/public.rs", "unseal", "index", 1%N, ByLemma, "after the length check / split: LocalProofs.lg_unseal_no_panic, PublicProofs.pg_unseal_no_panic, Paserk unseal models");
     ("paseto-v3/src/core/pw_wrap.rs", "pw_wrap_key", "expect", 1%N, ConstSize, "the buffer was just created with size_of::<Prefix>() bytes");
     ("paseto-v3/src/core/pw_wrap.rs", "wrap_keys", "expect", 2%N, LibTotal, "HMAC accepts every key length; BLAKE2b keys of 32 bytes and outputs <= 64; HKDF output <= 255 * 48");
@@ -105,7 +105,7 @@ Definition panic_cover : list (string * string * string * N * reason * string) :
     ("paseto-v4-sodium/src/core/pie_wrap.rs", "wrap_keys", "expect", 3%N, LibTotal, "HMAC accepts every key length; BLAKE2b keys of 32 bytes and outputs <= 64; HKDF output <= 255 * 48");
     ("paseto-v4-sodium/src/core/pke.rs", "seal_key", "unwrap", 4%N, LibTotal, "HMAC accepts every key length; the recipient key was validated at decode");
     ("paseto-v4-sodium/src/core/pke.rs", "unseal_key", "unwrap", 4%N, ByLemma, "after the length check / split: LocalProofs.lg_unseal_no_panic, PublicProofs.pg_unseal_no_panic, Paserk unseal models");
-    ("paseto-v4-sodium/src/core/public.rs", "decode", "index", 1%N, LibTotal, "DER encoding of a parsed RSA key; fixed-size conversions after the length check");
+    ("paseto-v4-sodium/src/core/public.rs", "decode", "index", 1%N, LibTotal, "as_bytes()[..]: the full range of a slice, never out of bounds");
     ("paseto-v4-sodium/src/core/public.rs", "is_identity", "index", 4%N, ConstSize, "indices 0 and 31 of a [u8; 32]");
     ("paseto-v4-sodium/src/core/public.rs", "unsealing_key", "expect", 1%N, ConstSize, "a 64-byte secret key ends with 32 bytes");
     ("paseto-v4-sodium/src/core/pw_wrap.rs", "pw_unwrap_key", "copy_from_slice", 1%N, LibTotal, "xchacha20 stream_xor returns exactly as many bytes as it is given");
